@@ -72,7 +72,8 @@ PROPERTY Terminates
 # universes of instances (scaled by G_SCALE: delta_empty 1.0 = 8)
 UNIVERSES = {
     "2x2": dict(na=2, maxu=2, dvals="{0, 4, 8, 16, 20}", de=8, sample=0),
-    "2x2de2": dict(na=2, maxu=2, dvals="{0, 8, 32, 36}", de=16, sample=0),
+    # delta_empty = 2: 24 (3.0) lies strictly between n x 1 and the cut n x delta_empty - a bound that forgets delta_empty drops it
+    "2x2de2": dict(na=2, maxu=2, dvals="{0, 8, 24, 32, 36}", de=16, sample=0),
     "2x3": dict(na=2, maxu=3, dvals="{0, 6, 16, 18}", de=8, sample=40),
     "3x1": dict(na=3, maxu=1, dvals="{0, 2, 8, 12, 24}", de=8, sample=0),
     "3x2": dict(na=3, maxu=2, dvals="{0, 6, 12, 28}", de=8, sample=6),
@@ -549,8 +550,8 @@ def run_property(pid, tier, rep):
         recs = add_other_backend_cost(recs)
     elif pid == "C11":
         l1_align_mutants(rep)
-        insts = l1_align(rep, ["2x2", "3x1", "4x1", "3x1hi"] if quick else list(UNIVERSES), emit=True, sample_mult=1 if quick else 4)
-        recs = l2_records(pa, insts, both, ["partition", "soft"], rng, violations, limit=200 if quick else None)
+        insts = l1_align(rep, ["2x2", "2x2de2", "3x1", "4x1", "3x1hi"] if quick else list(UNIVERSES), emit=True, sample_mult=1 if quick else 4)
+        recs = l2_records(pa, insts, both, ["partition", "soft"], rng, violations, limit=260 if quick else None)
         recs += l3_records(pa, rng, 200 if quick else 3000, both, ["partition", "soft"], violations, cands=False, recompute=False)
         recs = add_soft_le(recs)
         soft_permutation_pairs(rep, pa, rng, 40 if quick else 600)
